@@ -254,6 +254,11 @@ def run_forms(case):
         if rule is not None:
             todo.extend(rulelib.forms(rule))
     todo.extend(rulelib.chains(c, rng))
+    # verification rules: plain, and with a child (a declared dependency - at rule level only:
+    # the searcher cannot use such rules, it builds specifications in which the child has no rule)
+    for ver in (words.PrefixVerified(1), words.DepVerified(1), words.StatAtom()):
+        if ver.verified(c):
+            todo.append(("verification" + ("-with-child" if isinstance(ver, words.DepVerified) else ""), ver(c), None))
     for name, form, reason in todo:
         if form is None:
             continue
